@@ -25,6 +25,13 @@
 (*     MDP is then a union of sub-MDPs that only share value-0 absorbing states, the     *)
 (*     value / gain / relative value of a state is linear in ITS component's rewards, so *)
 (*     the real quantity at s is the model's times SM[s] * RM / RD (records carry `sm`). *)
+(*     RARE transitions (probability 1e-3 .. 1e-9 in the real MDP) are modelled          *)
+(*     structurally: field rare = <<s, a, x, t>> says that the row of (s, a) is          *)
+(*     "to x with probability 1 - eps, to t with probability eps"; the model carries it  *)
+(*     as (PD-1)/PD : 1/PD.  Such an instance is only admitted if nothing judged depends *)
+(*     on the value of eps > 0: RareInsensitive (instance filter) compares the optimal   *)
+(*     gain with that of the variant (PD-2)/PD : 2/PD, and the judge record says whether *)
+(*     the exact evaluation of a returned policy is the same on both (`rareok`).         *)
 (* (O) oracle: discounted -> MDP!OptimalValue; undiscounted -> Chain!GainOracle (closed  *)
 (*     classes, tree-theorem stationary weights, absorption probabilities, max over the  *)
 (*     deterministic policies).                                                          *)
@@ -60,6 +67,12 @@ Unbound  == <<>>                      \* value of a local the code has not assig
 Unit(m)  == IF "RD" \in DOMAIN m THEN m.RD ELSE 1     \* reward denominator: all values are in units of 1/RD
 Mult(m)  == IF "RM" \in DOMAIN m THEN m.RM ELSE 1     \* reward multiplier: ... times RM
 Mults(m) == IF "SM" \in DOMAIN m THEN [s \in St(m) |-> m.SM[s]] ELSE [s \in St(m) |-> 1]   \* ... times SM[s] at state s
+\* the rare-transition variant of an instance: the rare row with weights PD-2 : 2 instead of PD-1 : 1
+HasRare(m) == "rare" \in DOMAIN m
+RareVariant(m) ==
+  LET s == m.rare[1] a == m.rare[2] x == m.rare[3] t == m.rare[4] IN
+  [m EXCEPT !.P = [m.P EXCEPT ![s] = [m.P[s] EXCEPT ![a] =
+        [u \in 1..m.N |-> IF u = x THEN m.PD - 2 ELSE IF u = t THEN 2 ELSE 0]]]]
 \* states of different magnitude never feed into each other (ghost rows of absorbing states included)
 Decoupled(m) ==
   \A s \in St(m) : \A a \in Avail(m, s) : \A t \in St(m) :
@@ -209,7 +222,10 @@ JudgeRecord(m) ==
       okav == [s \in St(m) |-> \A a \in Ac(m) : w[s][a] > 0 => a \in Avail(m, s)]
       ok   == WeightsOK(m, w, ab)
       pv   == IF ~ok THEN <<>> ELSE IF Discounted(m) THEN DiscValue(m, w, ab) ELSE PolicyGain(m, w, ab)
+      \* rare-transition instances: is the exact evaluation of this policy independent of the rare probability?
+      rok  == IF ~ok \/ ~HasRare(m) THEN TRUE ELSE PolicyGain(RareVariant(m), w, ab) = pv
   IN [iid |-> iid, kind |-> "judge", tag |-> m.tag, rd |-> Unit(m), rm |-> Mult(m), wellformed |-> ok, availok |-> okav, pv |-> pv,
+      rareok |-> rok,
       attains |-> IF ~ok THEN <<>> ELSE [s \in St(m) |-> pv[s] = <<m.exp[s][1], m.exp[s][2]>>],
       stop |-> IF ~ok THEN <<>> ELSE StopGaps(m, w)]
 
@@ -237,7 +253,15 @@ WellFormed16(m) ==
   /\ SumTo([s \in St(m) |-> m.p0[s]], m.N) = m.ID
   /\ m.GN >= 0 /\ m.GN <= m.GD /\ m.GD > 0
   /\ Decoupled(m)
-InstancesWellFormed == WellFormed16(M) /\ DeadEnd(M) = {}
+\* a rare-transition instance is undiscounted, its rare row is x : t = PD-1 : 1, and the optimal gain does not depend
+\* on the rare probability (same oracle on the variant)
+RareInsensitive(m, o) ==
+  HasRare(m) =>
+     LET s == m.rare[1] a == m.rare[2] x == m.rare[3] t == m.rare[4] IN
+     /\ ~Discounted(m) /\ x # t /\ m.PD >= 3
+     /\ m.P[s][a][x] = m.PD - 1 /\ m.P[s][a][t] = 1
+     /\ GainOracle(RareVariant(m)).g = o.v
+InstancesWellFormed == WellFormed16(M) /\ DeadEnd(M) = {} /\ (phase = "inst" => RareInsensitive(M, opt))
 \* (P1) the oracle is attained by one deterministic policy at all states simultaneously, absorbing
 \*      states are worth 0, and (undiscounted) the optimal gain satisfies the first multichain
 \*      optimality equation  max_a sum_t P(t|s,a) g*(t) = g*(s)
